@@ -109,3 +109,39 @@ Proof. eexists. split; [vm_compute; reflexivity|]. split; reflexivity. Qed.
 (** a schedule that is not fair gets [Stuck], which is why the theorems ask for fairness *)
 Example unfair_is_stuck : run fixed_flags (fun _ _ => []) Query 1 3 w_drop = Stuck.
 Proof. reflexivity. Qed.
+
+(** stage B.  The literal "same error for every null": [plan] satisfies the exclusion (each of its
+    two visible failure-nulls admits exactly one error), [plan2] does not. *)
+Example hyp_single : excl_admissible_error_differs plan = false.   Proof. reflexivity. Qed.
+Example plan2_excluded : excl_admissible_error_differs plan2 = true. Proof. reflexivity. Qed.
+
+Example same_error_here :
+  exists r1 r2,
+    run fixed_flags all_at_once Query 6 5 plan = Done r1 /\
+    run fixed_flags staggered Query 6 5 (strip plan) = Done r2 /\
+    r_data r1 = r_data r2 /\
+    forall x, In x (visible_nulls plan) ->
+      exists e, snd x = [e] /\ In e (r_errors r1) /\ In e (r_errors r2) /\ (forall e', lands e' x -> e' = e).
+Proof.
+  apply same_error_when_single_candidate.
+  - exact hyp_single.
+  - exact hyp_same.
+  - exact hyp_fair1.
+  - exact hyp_fair2.
+  - exact hyp_fuel.
+  - vm_compute. repeat constructor.
+  - exact hyp_depth.
+Qed.
+
+(** the oracle's reading of the data finds exactly the two structural visible nulls among the eight sites *)
+Example reading_here :
+  filter (visible_failure_null (data_shape plan)) (sites plan) = visible_nulls plan.
+Proof. reflexivity. Qed.
+
+(** a promise fulfilled before its resolver returns (outside the theorems, inside the model and the
+    correspondence check): { a } with a: Int a prefilled promise finishes without an idle round *)
+Example prefilled_needs_no_idle :
+  exists r, run (with_prefill fixed_flags (fun _ => true)) (fun _ _ => []) Query 1 3
+                [(key_a, FP (Some 0) false (Some (VLeaf 5)))] = Done r /\
+            r_rounds r = 0%nat /\ r_promises r = 1%nat /\ r_data r = Some (JObj [(key_a, JInt 5)]).
+Proof. eexists. split; [vm_compute; reflexivity|]. repeat split. Qed.
